@@ -32,6 +32,7 @@ type c15Handler struct {
 type c15Case struct {
 	Cause    string       `json:"cause"` // closer | fin | rst | server_ctx
 	Handlers []c15Handler `json:"handlers"`
+	Empty    bool         `json:"empty,omitempty"` // the peer sent an empty data frame some time before the connection ends
 }
 
 var labelRe = regexp.MustCompile(`(?m)^(\d+) @.*\n# labels: (\{.*\})`)
@@ -136,6 +137,13 @@ func runC15(c c15Case) (*Violation, string) {
 		return nil, "server connection not found in the goroutine profile"
 	}
 
+	if c.Empty {
+		rig.Proxy.InjectEmptyFrame()
+		time.Sleep(3 * time.Millisecond)
+		if err := rig.Probe(cl, 3*time.Second); err != nil {
+			return violf("empty-frame-wedges-connection", "after an empty data frame from the peer a call on the same connection failed: %v", err), ""
+		}
+	}
 	switch c.Cause {
 	case "closer":
 		if !cl.Close(5 * time.Second) {
@@ -217,6 +225,9 @@ func runC15(c c15Case) (*Violation, string) {
 
 func c15NT(c c15Case) (bool, []string) {
 	cl := []string{"cause_" + c.Cause}
+	if c.Empty {
+		cl = append(cl, "empty_frame_before_end")
+	}
 	for _, h := range c.Handlers {
 		cl = append(cl, "handler_"+h.Kind)
 		if h.Size > 4096 {
@@ -235,7 +246,7 @@ func TestC15(t *testing.T) {
 	rec := NewRec("C15", c15Rule)
 	defer rec.Finish(t)
 	rec.EnableJournal()
-	rec.RequireClass("cause_closer", "cause_fin", "cause_rst", "cause_server_ctx", "handler_watch", "handler_late", "handler_notify", "handler_stream", "handler_reverse", "large_response")
+	rec.RequireClass("empty_frame_before_end", "cause_closer", "cause_fin", "cause_rst", "cause_server_ctx", "handler_watch", "handler_late", "handler_notify", "handler_stream", "handler_reverse", "large_response")
 	known := rec.IsKnown("lazywriter-leak")
 	run := func(ft failer, c c15Case) {
 		if known {
@@ -282,7 +293,7 @@ func TestC15(t *testing.T) {
 			for i, a := range c15Kinds {
 				k++
 				if k%nsh == sh {
-					run(t, c15Case{Cause: cause, Handlers: []c15Handler{{Kind: a, Size: []int{0, 6000}[i%2], ReactMs: 5}}})
+					run(t, c15Case{Cause: cause, Handlers: []c15Handler{{Kind: a, Size: []int{0, 6000}[i%2], ReactMs: 5}}, Empty: i%2 == 1})
 				}
 				for j, b := range c15Kinds {
 					if j < i {
@@ -298,7 +309,7 @@ func TestC15(t *testing.T) {
 		}
 	})
 	rec.Rapid(t, "rapid", func(rt *rapid.T) {
-		c := c15Case{Cause: rapid.SampledFrom(c15Causes).Draw(rt, "cause")}
+		c := c15Case{Cause: rapid.SampledFrom(c15Causes).Draw(rt, "cause"), Empty: rapid.IntRange(0, 3).Draw(rt, "empty") == 0}
 		n := rapid.IntRange(1, 6).Draw(rt, "nhandlers")
 		for i := 0; i < n; i++ {
 			c.Handlers = append(c.Handlers, c15Handler{Kind: rapid.SampledFrom(c15Kinds).Draw(rt, fmt.Sprintf("kind%d", i)),
